@@ -118,6 +118,30 @@ pub fn cases(tier: Tier) -> Vec<BigCase> {
             }
         }
     }
+    // durations whose conversion into the movie timescale lands just above 2^k for k other than 32 (31, 33, 40, 44, 48,
+    // 52..54, 60, 62, 63) with timescale pairs whose ratio is far from 1 or whose product with the media duration leaves
+    // 64 bits: integer-exact conversion, no refusal as long as the result fits in 64 bits, header durations and accessors
+    for (mts, tts) in [(4294967291u32, 1u32), (4294967291, 1000), (4294967291, 90000), (1_000_000_000, 1_000_000_000), (u32::MAX, u32::MAX), (90000, 1000)] {
+        for k in [31u32, 33, 40, 44, 48, 52, 53, 54, 60, 62, 63] {
+            let target = (1u128 << k) + 12345; // movie ticks
+            let media = target * tts as u128 / mts as u128 + 1;
+            if media * mts as u128 / tts as u128 > u64::MAX as u128 {
+                continue;
+            }
+            let n = (media / u32::MAX as u128 + 2) as usize;
+            if n > 140_000 {
+                continue;
+            }
+            let mut s = vec![];
+            let mut left = media as u64;
+            for i in 0..n {
+                let part = if i + 1 == n { left } else { left / (n - i) as u64 };
+                s.push((1u32, if i < 3 { 1 + i as u64 } else { 0 }, part as u32, 0i32, i == 0));
+                left -= part;
+            }
+            v.push(BigCase { name: format!("converted_duration_just_above_2^{}:M={},T={}", k, mts, tts), origin: 0, movie_ts: mts, tracks: vec![(Kind::Avc, tts)], samples: s, heavy: false });
+        }
+    }
     // several tracks, each independently short / exactly at 2^32-1 / above 2^32 movie ticks: every assignment for 2 and 3
     // tracks, so the long track comes first, in the middle and last (movie header form follows the longest track)
     for n in [2usize, 3] {
@@ -255,7 +279,7 @@ pub fn judge_as(prop: &str, c: &BigCase, l: &mut Local) {
             }
             let d = t.duration().as_secs_f64();
             let true_s = sum as f64 / ts as f64;
-            if (d - true_s).abs() > (1.0 / ts as f64).max(1e-6) + 1e-6 + true_s * 1e-12 {
+            if (d - true_s).abs() > (1.0 / ts as f64).max(1e-6) + 1e-6 + true_s * 8.0 * f64::EPSILON {
                 return fail("track_duration_accessor", json!({"track": id, "got_s": d, "expected_s": true_s}), l);
             }
         }
@@ -269,7 +293,7 @@ pub fn judge_as(prop: &str, c: &BigCase, l: &mut Local) {
         if c.movie_ts != 0 {
             let d = r.duration().as_secs_f64();
             let true_s = longest as f64 / c.movie_ts as f64;
-            if (d - true_s).abs() > 1.0 / c.movie_ts as f64 + 1e-3 + true_s * 1e-12 {
+            if (d - true_s).abs() > 1.0 / c.movie_ts as f64 + 1e-3 + 1e-9 + true_s * 8.0 * f64::EPSILON {
                 return fail("movie_duration_accessor", json!({"got_s": d, "expected_s": true_s}), l);
             }
         }
